@@ -7,10 +7,7 @@ CONSTANTS
   ClChk = TRUE
   Threaded = TRUE
   FinalValid = FALSE
-INVARIANT InvNoDroppedConnection
-INVARIANT InvNoHeaderSplitting
-INVARIANT InvExactlyOneResponse
-INVARIANT InvOtherClauses
+INVARIANT InvAllClauses
 INVARIANT InvNeverStuck
 INVARIANT InvDelivered
 INVARIANT InvNoSpurious
